@@ -166,7 +166,7 @@ def full_translate(sheets, entry=None, safety=True, workdir=None):
     return open(out, encoding='utf-8').read(), out
 
 
-def eval_formulas(formulas, values=None, overrides=None, extra_sheets=None, min_rows=0):
+def eval_formulas(formulas, values=None, overrides=None, extra_sheets=None, min_rows=0, min_fcol=0):
     """Evaluate a batch of formulas end-to-end (fast path).
 
     Sheet 'S': row 1.. of column A.. hold `values` (dict (col,row)->value, 0-based); the formulas are
@@ -176,7 +176,7 @@ def eval_formulas(formulas, values=None, overrides=None, extra_sheets=None, min_
     m = mods()
     values = values or {}
     nrows = max([r for (_, r) in values] + [len(formulas) - 1, min_rows - 1]) + 1 if (values or formulas or min_rows) else 0
-    fcol = max([c for (c, _) in values] + [-1]) + 2
+    fcol = max(max([c for (c, _) in values] + [-1]) + 2, min_fcol)       # min_fcol: keep the formulas clear of every column the formulas may refer to
     rows = [[None] * (fcol + 1) for _ in range(nrows)]
     for (c, r), v in values.items():
         rows[r][c] = v
